@@ -55,17 +55,17 @@ func (f *linForm) String() string {
 }
 
 type lenEval struct {
-	c        *Ctx
-	fd       *ast.FuncDecl
-	recv     types.Object
-	offP     types.Object
-	comprP   types.Object
-	acc      types.Object // the accumulator variable l
-	form     *linForm
-	snaps    map[string]*linForm // atom name of a dnl term -> accumulated form just before it
-	problems []string
-	loopVar  types.Object
-	locals   map[types.Object]string // local -> atom (e.g. lo -> packlen(x))
+	c         *Ctx
+	fd        *ast.FuncDecl
+	recv      types.Object
+	offP      types.Object
+	comprP    types.Object
+	acc       types.Object // the accumulator variable l
+	form      *linForm
+	snaps     map[string]*linForm // atom name of a dnl term -> accumulated form just before it
+	problems  []string
+	loopVar   types.Object
+	locals    map[types.Object]string // local -> atom (e.g. lo -> packlen(x))
 	tagLocals map[types.Object]string // local -> union selector it was defined as
 }
 
